@@ -526,7 +526,7 @@ Definition exec_op (has_ind_errors : bool) (op : opcode) : RM (option event) :=
         rret (Some (EvErrors (ls_ind_errors (r_listing r))))
       else rret None
   | OpClear => none do_clear
-  | OpCls => rret (Some EvCls)
+  | OpCls => rdo _ <~ rmod (fun r => set_col r 0) ;; rret (Some EvCls)
   | OpCont => do_cont
   | OpDef name => none (do_def name)
   | OpDefdbl => none (do_deftype TDbl)
